@@ -4,7 +4,7 @@ from __future__ import annotations
 
 from functools import partial
 
-from . import e1, e1b, e2, e2b, e3, e4, e5, e6, e7, e7b, e8, e9, e10, e11
+from . import e1, e1b, e2, e2b, e2c, e3, e4, e5, e6, e7, e7b, e8, e9, e10, e11
 
 TB_E1 = [
     "the rewriting normaliser of sv/algebra.py (confluence re-checked on all critical triples on every run)",
@@ -25,7 +25,7 @@ tv_shipped = partial(e9.rule_translation, which=("main", "nonhermitian"))
 diag_solver_real = partial(e7b.rule_diagonal_solver, complex_energies=False)  # Hermitian H_0: real energies
 
 # ideal DSL semantics tied to the code: shared by the algorithm-level properties
-CORE = [e1b.rule_projection_pairs, e1b.rule_scope_flags, e2.rule_product_by_order, e2.rule_adjoint_fill, e2.rule_cauchy_wiring,
+CORE = [e1b.rule_projection_pairs, e1b.rule_scope_flags, e2c.rule_product_by_order, e2c.rule_adjoint_fill, e2c.rule_cauchy_wiring,
         e4.rule_value_preserving, tv_shipped, e9.rule_runtime_support, e11.rule_helpers]
 
 PROPS: dict[str, dict] = {}
@@ -125,7 +125,7 @@ prop(
 
 prop(
     "C09", level="translation_validation", selftest=["algorithm_parsing"],
-    rules=[e9.rule_translation, e9.rule_translation_corpus, e9.rule_runtime_support, wf_all, e2.rule_adjoint_fill, e8.rule_implicit_wiring],
+    rules=[e9.rule_translation, e9.rule_translation_corpus, e9.rule_runtime_support, wf_all, e2c.rule_adjoint_fill, e8.rule_implicit_wiring],
     explanation=(
         "The repository's own _parse_algorithm is queried (subprocess, tree under analysis) for the generated "
         "series_eval ASTs of `main`, `nonhermitian` and the documented example; each is interpreted abstractly per "
@@ -163,7 +163,7 @@ prop(
 
 prop(
     "C12", level="other", selftest=["series", "block_diagonalization"],
-    rules=[e2b.rule_definition_time_lazy, e2b.rule_order_preserving_evals, e2.rule_product_by_order, wf_all,
+    rules=[e2b.rule_definition_time_lazy, e2b.rule_order_preserving_evals, e2c.rule_product_by_order, wf_all,
            e3.rule_typestate, tv_shipped],
     explanation=(
         "Dependency cone decided structurally: definition-time code subscripts a BlockSeries only at the zeroth order; "
@@ -175,7 +175,7 @@ prop(
 
 prop(
     "C13", level="other", selftest=["series", "block_diagonalization"],
-    rules=[e2.rule_product_by_order, wf_all, e2b.rule_key_normalisation, e2b.rule_order_preserving_evals, e2b.rule_taylor],
+    rules=[e2c.rule_product_by_order, wf_all, e2b.rule_key_normalisation, e2b.rule_order_preserving_evals, e2b.rule_taylor],
     explanation=(
         "Narrow claim: order components are handled uniformly and split exactly (product_by_order rules), every DSL "
         "summand is a rational multiple of exactly one series/product reference under linear scope functions (element n "
@@ -187,7 +187,7 @@ prop(
 prop(
     "C14", level="other", selftest=["block_diagonalization"],
     rules=[e6.rule_projector_call_sites, e6.rule_subspaces_from_indices, e11.rule_helpers, e2b.rule_taylor, e2b.rule_order_preserving_evals, e2b.rule_key_normalisation,
-           e5.rule_total_callbacks, e2.rule_adjoint_fill, e4.rule_value_preserving],
+           e5.rule_total_callbacks, e2c.rule_adjoint_fill, e4.rule_value_preserving],
     explanation=(
         "Narrow claim: operator_to_BlockSeries returns L_i† A R_j (projector families, argument order of every "
         "ComplementProjector construction, Hermitian fill), the Taylor recurrence of symbolic input is consistent "
@@ -226,7 +226,7 @@ prop(
 
 prop(
     "C18", level="other", selftest=["series"],
-    rules=[e2.rule_product_by_order, e2.rule_cauchy_wiring, e2.rule_adjoint_fill, main_e1, e4.rule_value_preserving, e9.rule_runtime_support],
+    rules=[e2c.rule_product_by_order, e2c.rule_cauchy_wiring, e2c.rule_adjoint_fill, main_e1, e4.rule_value_preserving, e9.rule_runtime_support],
     explanation=(
         "product_by_order: order box, complementary orders, index wiring (start, middle, *o1) / (middle, end, *o2), "
         "presence test dominating every load, zero-skip, multiplicity table of the Hermitian half-sum, operator "
